@@ -74,6 +74,25 @@ def run(c):
             s = scen[owner[i]]
             c.reproduce_trace("sigdb", s["sc"], "SigDbTrace", "SigDbTrace.cfg", ("sc", "i", "panic"))
         c.report(key, "event %s -> %s is not allowed by the specification" % (e.get("op"), e.get("res")), dict({"ops": scen[owner[i]]["ops"], "event": e}, **c.rp("sigdb", scen[owner[i]], validate=("SigDbTrace", "SigDbTrace.cfg"))))
+    # databases built with the library's constructors and list-level operations, including lists without entries (a fresh list, a list
+    # emptied again): "every database built through the library's own operations encodes to a well-formed stream that decodes to an equal database"
+    progs = [[["new", "x509"], ["appendlist"]],
+             [["new", "sha256"], ["appendlist"], ["dbappend", "x509", "o1", "c1"]],
+             [["dbappend", "x509", "o1", "c1"], ["new", "x509"], ["add", "o1", "c3"], ["del", "o1", "c3"], ["appendlist"]],
+             [["new", "sha256"], ["add", "o1", "h1"], ["add", "o2", "h2"], ["del", "o1", "h1"], ["del", "o2", "h2"], ["appendlist"], ["new", "x509"], ["add", "o1", "c1"], ["appendlist"]],
+             [["new", "extern"], ["appendlist"], ["dbappend", "sha256", "o2", "h2"]],
+             [["new", "x509"], ["add", "o1", "c1"], ["add", "o2", "c2"], ["appendlist"], ["new", "sha256"], ["add", "o1", "h1"], ["appendlist"]],
+             [["new", "x509"], ["appendlist"], ["new", "sha256"], ["appendlist"], ["new", "x509"], ["appendlist"]]]
+    bs = [{"sc": 5 * 10 ** 6 + k, "prog": pg} for k, pg in enumerate(progs)]
+    rb, db_ = c.run_worker("sigdbbuilt", bs, parallel=1)
+    for s in bs:
+        if s["sc"] in db_:
+            c.report("built:death", "process died building / encoding a database", {"prog": s["prog"], "death": db_[s["sc"]]})
+        for ev in rb.get(s["sc"], []):
+            if not ev.get("agree", False):
+                c.reproduce("sigdbbuilt", s["sc"], lambda evs: any(not e.get("agree", True) for e in evs))
+                c.report("built:" + (ev.get("bad") or ["?"])[0][:50], "; ".join(ev.get("bad") or []), dict({"prog": s["prog"]}, **c.rp("sigdbbuilt", s)))
+    c.cov["built_programs"] = len(bs)
     nrecode = sum(1 for e in events if e.get("op") == "recode")
     if nrecode == 0:
         raise vf.FrameworkError("no recode events recorded")
